@@ -498,10 +498,6 @@ def run(ctx):
     stats = {"programs": 0, "runs": 0, "prints": 0, "corpus_cases": 0, "known_hits": {}, "ops": {}, "vias": {}, "layouts": {},
              "threads": 0, "kont": 0, "model": {}, "real_uniqueness_answers": {}, "transient_timeouts": 0, "samples": [], "pending": [], "oracle_mismatch": 0, "distinct": set()}
     known = {k.get("id"): k for k in ctx.load_known()}
-    # findings of this check that the coordinator has not listed yet are treated as listed (see the report)
-    for fid in CLASSES:
-        if os.path.exists(os.path.join(C.VERIF, "findings", "C03-%s.scm" % fid)):
-            known.setdefault(fid, {"id": fid, "provisional": True})
 
     # translate
     rc, tout = C.sh(["python3", os.path.join(C.VERIF, "translate", "c03_inplace.py")], timeout=120)
